@@ -833,3 +833,64 @@ def snake_ref(name):
             out.append("_")
         out.append(ch.lower())
     return "".join(out)
+
+
+def index_builder_rows(ctx):
+    """G15: codegen.generate_index.build_index evaluated (E2) with get_message_entities replaced by a stub that yields a handful of
+    shipped entity classes (among them API key 0 and a header without API key): every payload class must be reachable by name and
+    by key; classes without an API key contribute no key."""
+    I = ctx.interp
+    from .source import add_virtual
+    gi = _mod(ctx, "codegen.generate_index")
+    bi = gi.env.vars.get("build_index")
+    if not isinstance(bi, FuncV):
+        raise AnalysisError("anchor vanished: codegen.generate_index.build_index")
+    keys = ["kio.schema.produce.v0.request:ProduceRequest", "kio.schema.produce.v0.response:ProduceResponse",
+            "kio.schema.produce.v3.request:ProduceRequest", "kio.schema.metadata.v12.request:MetadataRequest",
+            "kio.schema.metadata.v12.response:MetadataResponse", "kio.schema.request_header.v1.header:RequestHeader",
+            "kio.schema.fetch.v4.request:FetchRequest"]
+    S = ctx.schema
+    missing = [k for k in keys if k not in S.classes]
+    if missing:
+        raise AnalysisError(f"anchor vanished: schema classes {missing}")
+    ents = tuple(I.entity_class(k) for k in keys)
+    if ctx.sm.get("codegen._kverif_stub_entities") is None:
+        add_virtual(ctx.sm, "codegen._kverif_stub_entities", "ENTITIES = ()\ndef get_message_entities():\n    return tuple((e, None) for e in ENTITIES)\n")
+    st = I.module("codegen._kverif_stub_entities")
+    st.env.vars["ENTITIES"] = ents
+    saved = gi.env.vars.get("get_message_entities")
+    gi.env.vars["get_message_entities"] = st.env.vars["get_message_entities"]
+    try:
+        res = I.call(bi, [], {}, Run(), None)
+    except Raised as r:
+        return [{"ok": False, "case": "build_index()", "message": f"build_index raises {short_exc(r.cls)} at {r.site}"}]
+    except Limit as e:
+        raise AnalysisError(f"codegen.generate_index.build_index not understood: {e}")
+    finally:
+        gi.env.vars["get_message_entities"] = saved
+    if not (isinstance(res, tuple) and len(res) == 2 and all(isinstance(x, DictV) for x in res)):
+        raise AnalysisError(f"build_index() is not evaluated to two mappings: {res!r}")
+    names, akm = res
+
+    def plain(d):
+        return {k: (plain(v) if isinstance(v, DictV) else v) for k, v in d.d.items()}
+    names_p, akm_p = plain(names), {int(k) if not isinstance(k, InstV) else k.attrs.get("_base_value_"): v for k, v in akm.d.items()}
+    rows = []
+    want_keys = {}
+    for k in keys:
+        c = S.classes[k]
+        mod = S.modules[c["module"]]
+        api, ver, typ = mod["api"], mod["version"], mod["type"]
+        got = None
+        for et, path in (names_p.get(api, {}).get(ver, {}) or {}).items():
+            if getattr(et, "name", None) == typ:
+                got = path
+        rows.append({"ok": got == k, "case": f"schema_name_map[{api!r}][{ver}][{typ}]",
+                     "message": f"build_index maps ({api!r}, {ver}, {typ}) to {got!r}; the entity is {k!r}"})
+        ak = S.cv_const(c, "__api_key__")
+        if isinstance(ak, int):
+            want_keys[ak] = api
+    rows.append({"ok": akm_p == want_keys, "case": "api_key_map",
+                 "message": f"build_index gives api_key_map {akm_p}; the entities carry the keys {want_keys} (a key of 0 is a key)"})
+    rows.append({"ok": list(akm_p) == sorted(akm_p), "case": "api_key_map order", "message": f"api_key_map keys are not sorted: {list(akm_p)}"})
+    return rows
